@@ -34,20 +34,38 @@ func (k Keeper) HandleExpiredShard(ctx sdk.Context, shardId uint64) {
 		k.market.WorkerAppend(ctx, &newOrder, &shard)
 	}
 
-	// a migration of the shard that has just been released can never complete any more: drop
-	// its target shard with it, otherwise the order would list it for ever
-	if _, still := k.order.GetShard(ctx, shardId); !still {
-		kept := make([]uint64, 0, len(order.Shards))
-		for _, id := range order.Shards {
-			target, found := k.order.GetShard(ctx, id)
-			if found && target.Status == ordertypes.ShardMigrating && target.From == shard.Sp {
+	// an unfinished migration of this shard: its target shard is dropped when the shard has
+	// just been released (it can never complete any more), and moves on to the renewal order
+	// together with the shard when that has just rolled over - otherwise the order of the
+	// ended term would list the target for ever
+	_, rolledOver := k.order.GetShard(ctx, shardId)
+	kept := make([]uint64, 0, len(order.Shards))
+	for _, id := range order.Shards {
+		target, found := k.order.GetShard(ctx, id)
+		if found && id != shardId && target.Status == ordertypes.ShardMigrating && target.From == shard.Sp {
+			if !rolledOver {
 				k.order.RemoveShard(ctx, id)
-				continue
+			} else if target.OrderId == order.Id {
+				target.OrderId = shard.OrderId
+				k.order.SetShard(ctx, target)
+				if newOrder, ok := k.order.GetOrder(ctx, shard.OrderId); ok {
+					listed := false
+					for _, sid := range newOrder.Shards {
+						if sid == id {
+							listed = true
+						}
+					}
+					if !listed {
+						newOrder.Shards = append(newOrder.Shards, id)
+						k.order.SetOrder(ctx, newOrder)
+					}
+				}
 			}
-			kept = append(kept, id)
+			continue
 		}
-		order.Shards = kept
+		kept = append(kept, id)
 	}
+	order.Shards = kept
 
 	if len(order.Shards) == 1 {
 		if order.Shards[0] == shardId {
